@@ -147,7 +147,7 @@ func init() {
 	register(&Scenario{
 		Prop:  "C07",
 		Level: "fault_enumeration",
-		Rule:  "per seeded history (first use, growth, refresh, forks presented as first use, stale, bad proof, bad signature; 1..3 logs; in-memory and single-connection SQLite): a fault-free dry run lists every storage call, then EVERY single fault position is executed - interface level (open-for-write, read-latest with 5 non-NotFound error kinds and 3 kinds of damaged bytes returned without an error - one flipped character in the root-hash line, the first half only, nothing -, write, close) or SQL-driver level (begin incl. bad-connection, query, row fetch, exec, commit, rollback) - plus sampled multi-fault patterns (bursts, every other call, everything up to op k) and, on SQLite, VFS-level IOERR / disk-full / short-write windows; each execution ends with a fault-free tail (honest next step per log, then a fork attempt). Oracles: accepted => a fault-free read returns exactly those bytes; failed => store unchanged; commit sequence stays one append-only history (a fork accepted because a failing read looked like 'nothing stored' is the TOFU trap); the tail builds on the last committed state; no wedge (scheduler wedge detection on the one-connection pool), handles opened = closed, sql.DB InUse = 0. evaluations = executions; non-trivial = the injected fault actually fired inside an update; distinct = distinct (call, error kind, op kind, state class, outcome) tuples",
+		Rule:  "per seeded history (first use, growth, refresh, forks presented as first use, stale, bad proof, bad signature; 1..3 logs; in-memory and single-connection SQLite): a fault-free dry run lists every storage call, then EVERY single fault position is executed - interface level (open-for-write, read-latest with 5 non-NotFound error kinds and 3 kinds of damaged bytes returned without an error - one flipped character in the root-hash line, the first half only, nothing -, write, close) or SQL-driver level (begin incl. bad-connection, query, row fetch, exec, commit, rollback, and statement preparation where the code under test prepares statements) - plus sampled multi-fault patterns (bursts, every other call, everything up to op k) and, on SQLite, VFS-level IOERR / disk-full / short-write windows; each execution ends with a fault-free tail (honest next step per log, then a fork attempt). Oracles: accepted => a fault-free read returns exactly those bytes; failed => store unchanged; commit sequence stays one append-only history (a fork accepted because a failing read looked like 'nothing stored' is the TOFU trap); the tail builds on the last committed state; no wedge (scheduler wedge detection on the one-connection pool), handles opened = closed, sql.DB InUse = 0. evaluations = executions; non-trivial = the injected fault actually fired inside an update; distinct = distinct (call, error kind, op kind, state class, outcome) tuples",
 		Gen: func(r *Rng, tier string, n uint64) *Plan {
 			if n%11 == 10 {
 				// through the add-checkpoint endpoint: a spell of storage errors (low rates, so that little burst is left), then
@@ -206,7 +206,7 @@ func init() {
 				}
 				calls := []string{"WriteOps", "W.GetLatest", "W.Set", "W.Close"}
 				if p.Cfg.Seam == "driver" {
-					calls = []string{"drv.Begin", "drv.Query", "drv.Next", "drv.Exec", "drv.Commit", "drv.Rollback"}
+					calls = []string{"drv.Begin", "drv.Query", "drv.Next", "drv.Exec", "drv.Commit", "drv.Rollback", "drv.Prepare"}
 				}
 				pat := r.IntN(3)
 				from, every := r.IntN(4), 1+r.IntN(2)
@@ -287,6 +287,9 @@ func init() {
 				}
 			}
 			for _, key := range keys {
+				if strings.Contains(key, ".ret#") {
+					continue // a scheduling point after a completed call, not a call that can fail
+				}
 				for _, kind := range c07Kinds(key) {
 					q := p.Clone()
 					q.Faults = []Fault{{At: key, Kind: kind}}
